@@ -5,6 +5,7 @@ use crate::driver::*;
 use crate::grammar::*;
 use crate::reference::{self, RefOpts, RefOut};
 use crate::run::*;
+use crate::reference::RefOut as RO;
 use chumsky::error::{EmptyErr, Rich};
 
 pub type RichS<'s> = Rich<'s, char, chumsky::span::SimpleSpan>;
@@ -129,3 +130,195 @@ pub fn is_clean_accept(o: &ImplOut) -> bool {
 
 #[allow(dead_code)]
 pub fn unused(_: EmptyErr) {}
+
+pub fn differential<'s, I: Kind<'s> + Clone>(
+    id: &str,
+    sub: &str,
+    g: &G,
+    toks: &[char],
+    mk: &dyn Fn() -> I,
+    sm: &SpanMap,
+    base: usize,
+    r_plain: &RO,
+    r_obs: &RO,
+    l: &mut Local,
+) -> CaseRes {
+    let case = || Case::new(id, sub, g, toks);
+    macro_rules! bail {
+        ($sig:expr, $($a:tt)*) => {
+            return fail(case, $sig, format!($($a)*))
+        };
+    }
+    // plain build, Rich
+    let p = build::<I, chumsky::error::Rich<'s, I::Tok, I::Spn>>(g, false);
+    let o = run_parse(&p, mk());
+    l.evals += 1;
+    if let Some(m) = &o.panic {
+        bail!(&format!("{}/panic", id), "parse panicked: {}", m);
+    }
+    let acc = is_clean_accept(&o);
+    if acc != r_plain.accepted {
+        bail!(
+            &format!("{}/accept-parse", id),
+            "parse {} the input but the PEG reading {} it (impl output {:?}, errors {:?}; reference prefix {:?})",
+            if acc { "accepts" } else { "rejects" },
+            if r_plain.accepted { "accepts" } else { "rejects" },
+            o.out,
+            o.errs,
+            r_plain.prefix
+        );
+    }
+    if !acc && (o.has_output || o.errs.is_empty()) {
+        bail!(&format!("{}/result-shape", id), "rejected input: has_output={} errors={:?}", o.has_output, o.errs);
+    }
+    if acc {
+        let rv = &r_plain.prefix.as_ref().unwrap().0;
+        if let Err(m) = cmp_val(rv, o.out.as_ref().unwrap(), sm, base) {
+            bail!(&format!("{}/value", id), "output differs from the PEG reading: {} (impl {:?}, reference {:?})", m, o.out, rv);
+        }
+    }
+    let c = run_check(&p, mk());
+    l.evals += 1;
+    if let Some(m) = &c.panic {
+        bail!(&format!("{}/panic", id), "check panicked: {}", m);
+    }
+    if is_clean_accept(&c) != r_plain.accepted {
+        bail!(&format!("{}/accept-check", id), "check {} but the PEG reading {}", c.has_output, r_plain.accepted);
+    }
+    // zero-sized error type: separate fast paths in the failure bookkeeping
+    let pe = build::<I, EmptyErr>(g, false);
+    let oe = run_parse(&pe, mk());
+    let ce = run_check(&pe, mk());
+    l.evals += 2;
+    if oe.panic.is_none() && ce.panic.is_none() {
+        if is_clean_accept(&oe) != r_plain.accepted || is_clean_accept(&ce) != r_plain.accepted {
+            bail!(
+                &format!("{}/accept-emptyerr", id),
+                "with EmptyErr parse/check accept = {}/{} but the PEG reading = {}",
+                is_clean_accept(&oe),
+                is_clean_accept(&ce),
+                r_plain.accepted
+            );
+        }
+        if is_clean_accept(&oe) {
+            let rv = &r_plain.prefix.as_ref().unwrap().0;
+            if let Err(m) = cmp_val(rv, oe.out.as_ref().unwrap(), sm, base) {
+                bail!(&format!("{}/value-emptyerr", id), "output with EmptyErr differs: {}", m);
+            }
+        }
+    } else {
+        // panics with zero-sized errors are C20's business (known finding F8); counted here
+        l.bump("emptyerr_panics_left_to_C20");
+    }
+    // observed build: the consumed extent of every sub-parser on the successful path
+    let po = build::<I, chumsky::error::Rich<'s, I::Tok, I::Spn>>(g, true);
+    let oo = run_parse(&po, mk());
+    l.evals += 1;
+    if let Some(m) = &oo.panic {
+        bail!(&format!("{}/panic", id), "observed parse panicked: {}", m);
+    }
+    if is_clean_accept(&oo) != r_obs.accepted {
+        bail!(&format!("{}/accept-observed", id), "wrapping nodes in map_with changed acceptance: {} vs {}", is_clean_accept(&oo), r_obs.accepted);
+    }
+    if r_obs.accepted {
+        let rv = &r_obs.prefix.as_ref().unwrap().0;
+        let iv = oo.out.as_ref().unwrap();
+        if let Err(m) = cmp_val(rv, iv, sm, base) {
+            bail!(&format!("{}/extent", id), "consumed extent of a sub-parser differs from the PEG reading: {} (impl {:?}, reference {:?})", m, iv, rv);
+        }
+    }
+    Ok(())
+}
+
+
+/// Admissible reference variants for a case (DESIGN.md 3.1): the default reading plus the
+/// alternatives of every under-specified corner the evaluation actually touched.
+pub fn variants(g: &G, toks: &[char]) -> Vec<RefOpts> {
+    let base = reference::eval(g, toks, RefOpts::default());
+    let mut v = vec![RefOpts::default()];
+    if base.stats.used_vlead {
+        let n = v.len();
+        for i in 0..n {
+            let mut o = v[i].clone();
+            o.vlead_alt = true;
+            v.push(o);
+        }
+    }
+    if base.stats.used_vtrailcap {
+        let n = v.len();
+        for i in 0..n {
+            let mut o = v[i].clone();
+            o.vtrailcap_alt = true;
+            v.push(o);
+        }
+    }
+    v
+}
+
+/// The PEG differential on one (grammar, input) pair: acceptance, value, extents, remainder.
+/// `kind` = "str" or "slice". Returns the reference result of the default variant.
+pub fn peg_diff(id: &str, sub: &str, kind: &str, g: &G, toks: &[char], l: &mut Local) -> Result<RO, (Case, Fail)> {
+    let vs = variants(g, toks);
+    let mut first_err = None;
+    let mut first_ref = None;
+    for (vi, opts) in vs.iter().enumerate() {
+        let r_plain = reference::eval(g, toks, opts.clone());
+        if r_plain.stats.fuel_out {
+            l.bump("skipped_fuel");
+            return Ok(r_plain);
+        }
+        let r_obs = reference::eval(g, toks, RefOpts { observed: true, ..opts.clone() });
+        let res: CaseRes = if kind == "slice" {
+            let v: Vec<char> = toks.to_vec();
+            let sm = SpanMap::for_index(v.len(), std::mem::size_of::<char>());
+            let sl: &[char] = &v;
+            differential::<&[char]>(id, sub, g, toks, &|| sl, &sm, sl.as_ptr() as usize, &r_plain, &r_obs, l)
+        } else {
+            let si = StrIn::new(toks);
+            let s: &str = &si.s;
+            let mut r = differential::<&str>(id, sub, g, toks, &|| s, &si.sm, si.base(), &r_plain, &r_obs, l);
+            if r.is_ok() {
+                // how much a successful prefix match consumed, observed through g.then(rest)
+                let g2 = with_rest(g);
+                let r2 = reference::eval(&g2, toks, opts.clone());
+                let p2 = build::<&str, RichS>(&g2, false);
+                let o2 = run_parse(&p2, s);
+                l.evals += 1;
+                if let Some(m) = &o2.panic {
+                    r = fail(|| Case::new(id, sub, g, toks), &format!("{}/panic", id), format!("g.then(rest) panicked: {}", m));
+                } else if is_clean_accept(&o2) != r2.accepted {
+                    r = fail(
+                        || Case::new(id, sub, g, toks),
+                        &format!("{}/prefix-accept", id),
+                        format!("g.then(rest) accept={} but the PEG reading={} (errors {:?}, reference prefix {:?})", is_clean_accept(&o2), r2.accepted, o2.errs, r2.prefix),
+                    );
+                } else if r2.accepted {
+                    let rv = &r2.prefix.as_ref().unwrap().0;
+                    if let Err(m) = cmp_val(rv, o2.out.as_ref().unwrap(), &si.sm, si.base()) {
+                        r = fail(
+                            || Case::new(id, sub, g, toks),
+                            &format!("{}/prefix-consumed", id),
+                            format!("a successful prefix match consumed a different amount: {} (impl {:?}, reference {:?})", m, o2.out, rv),
+                        );
+                    }
+                }
+            }
+            r
+        };
+        match res {
+            Ok(()) => {
+                if vi > 0 {
+                    l.bump("matched_admissible_variant");
+                }
+                return Ok(first_ref.unwrap_or(r_plain));
+            }
+            Err(e) => {
+                if first_err.is_none() {
+                    first_err = Some(e);
+                    first_ref = Some(r_plain);
+                }
+            }
+        }
+    }
+    Err(first_err.unwrap())
+}
